@@ -339,6 +339,18 @@ def run(ctx: Any, prog: Program) -> None:
                 names_ = [dotted(t) for t in n_.targets]
                 if 'self._temp_name' in names_ or dotted(n_.value) == 'self._temp_name':
                     aliases |= {x for x in names_ if x}
+        # a helper may take the path as a parameter: what every call site passes for it
+        hparams = [a.arg for a in getattr(fnx, 'args', ast.arguments(args=[])).args]
+        if tgt in hparams[1:]:
+            passed = set()
+            for cfn in [mt] + [h[1] for h in helpers]:
+                for c2 in walk_no_nested(cfn):
+                    if isinstance(c2, ast.Call) and isinstance(c2.func, ast.Attribute) and dotted(c2.func.value) == 'self' and aw.get(c2.func.attr) is fnx:
+                        i_ = hparams.index(tgt) - 1
+                        a_ = c2.args[i_] if 0 <= i_ < len(c2.args) else next((k.value for k in c2.keywords if k.arg == tgt), None)
+                        passed.add(dotted(a_) if a_ is not None else None)
+            if len(passed) == 1:
+                tgt = next(iter(passed))
         if tgt in aliases:
             ctx.check('C12.W4', True, core, c, 'only the temp path may be opened', func=f'AtomicWriter.{getattr(fnx, "name", "?")}', text='open target is the temp path')
         elif tgt in ('self.filename', 'self._filename'):
@@ -346,7 +358,9 @@ def run(ctx: Any, prog: Program) -> None:
         else:
             ctx.shape('C12.W4', False, core, c, f'open target `{tgt}` not recognised', func=f'AtomicWriter.{getattr(fnx, "name", "?")}', text='open target is the temp path')
     # the try statements that contain the open() of the temp file (a read-only probe in its own try is a different matter)
-    tries = [n for n in walk_no_nested(mt) if isinstance(n, ast.Try) and any(isinstance(c, ast.Call) and isinstance(c.func, ast.Attribute) and c.func.attr == 'open' for b in n.body for c in ast.walk(b))]
+    opening_helpers = {getattr(fnx, 'name', '') for fnx, _c, _m in open_sites if fnx is not mt}
+    tries = [n for n in walk_no_nested(mt) if isinstance(n, ast.Try) and any(isinstance(c, ast.Call) and isinstance(c.func, ast.Attribute) and (c.func.attr == 'open' or (dotted(c.func.value) == 'self' and c.func.attr in opening_helpers))
+                                                                             for b in n.body for c in ast.walk(b))]
     ok = len(tries) == 1 and len(tries[0].handlers) == 1 and dotted(tries[0].handlers[0].type) == 'FileExistsError'
     ctx.check('C12.W4', ok, core, tries[0] if tries else mt, 'the name search may only continue on FileExistsError (any other error must propagate)', func='AtomicWriter.make_tempfile', text='retry only on FileExistsError')
     first_if = [n for n in mt.body if isinstance(n, ast.If)]
